@@ -44,6 +44,11 @@ type TxOpts struct {
 	ExtraSeq      uint64
 }
 
+// plain: no option that changes how the transaction is wrapped or signed.
+func (o TxOpts) plain() bool {
+	return o.Seq == 0 && o.TimeoutHeight == 0 && o.Memo == "" && o.GasLimit == 0 && o.ChainID == "" && !o.BadSig && o.ExtraSigner == nil && o.Signer == nil
+}
+
 // buildTx signs a transaction the way the relayer / the block proposer do (SIGN_MODE_DIRECT).
 func (w *World) buildTx(o TxOpts) ([]byte, error) {
 	cfg := w.txConfig()
@@ -96,7 +101,27 @@ func (w *World) buildTx(o TxOpts) ([]byte, error) {
 	return cfg.TxEncoder()(b.GetTx())
 }
 
-func (w *World) decodeTx(raw []byte) (sdk.Tx, error) { return w.txConfig().TxDecoder()(raw) }
+// decodeTx decodes transaction bytes. Bytes that the SDK decodes into a transaction without a body
+// or auth info (zero bytes do) are reported as undecodable: the SDK's accessors panic on them.
+func (w *World) decodeTx(raw []byte) (tx sdk.Tx, err error) {
+	if len(raw) == 0 {
+		return nil, fmt.Errorf("empty transaction bytes")
+	}
+	tx, err = w.txConfig().TxDecoder()(raw)
+	if err != nil {
+		return nil, err
+	}
+	defer func() {
+		if r := recover(); r != nil {
+			tx, err = nil, fmt.Errorf("malformed transaction: %v", r)
+		}
+	}()
+	_ = tx.GetMsgs()
+	if sv, ok := tx.(xauthsigning.SigVerifiableTx); ok {
+		sv.GetSigners()
+	}
+	return tx, nil
+}
 
 // account reads (account number, sequence) from a node's committed state.
 func (n *Node) account(addr sdk.AccAddress) (num, seq uint64, ok bool) {
